@@ -217,3 +217,76 @@ func Summary() string {
 	y := time.Now().Year() > 1
 	return fmt.Sprint(counter, atomic.LoadInt64(&hits), ks, last, lastObj.n, y)
 }
+
+// ---- channels ---------------------------------------------------------------
+
+type bufT struct{ xs []int }
+
+var freeList = make(chan *bufT, 2)
+var sem = make(chan struct{}, 1)
+var guarded int
+
+func borrow() *bufT {
+	select {
+	case b := <-freeList:
+		b.xs = b.xs[:0]
+		return b
+	default:
+		return &bufT{}
+	}
+}
+
+func giveBack(b *bufT) {
+	select {
+	case freeList <- b:
+	default:
+	}
+}
+
+func Channels(n int) string {
+	b := borrow()
+	for i := 0; i < n; i++ {
+		b.xs = append(b.xs, i)
+	}
+	sum := 0
+	for _, v := range b.xs {
+		sum += v
+	}
+	giveBack(b)
+	// unbuffered rendezvous + range + close
+	ch := make(chan int)
+	done := make(chan bool)
+	var out []int
+	go func() {
+		for v := range ch {
+			out = append(out, v*2)
+		}
+		done <- true
+	}()
+	for i := 0; i < n; i++ {
+		ch <- i
+	}
+	close(ch)
+	ok := <-done
+	// buffered channel as a mutex
+	var wg sync.WaitGroup
+	for i := 0; i < 3; i++ {
+		wg.Add(1)
+		go func() {
+			defer wg.Done()
+			sem <- struct{}{}
+			guarded++
+			<-sem
+		}()
+	}
+	wg.Wait()
+	v, more := <-ch
+	var rd <-chan int = ch
+	_ = rd
+	res := make(chan string, 1)
+	select {
+	case res <- "sent":
+	case <-done:
+	}
+	return fmt.Sprint(sum, out, ok, guarded, v, more, len(freeList), cap(freeList), <-res)
+}
